@@ -12,7 +12,15 @@ ENTRIES = [f"{BASE}.traverse", "swcgeom.core.tree.Tree.traverse",
            "swcgeom.core.tree.Tree.Node.traverse"]
 
 
-def recursion_free(ctx, col, rule, entries, what, allow=(), exclude_kinds=("callback",)):
+# Justified cycles: a view's accessor delegates to its owner's accessor, which is another
+# view only when views are stacked by hand; the depth is the nesting of view objects, a
+# constant of the object, independent of the number of nodes.
+VIEW_ACCESSORS = tuple(f"swcgeom.core.{m}.{c}.{f}" for m, c in
+                       (("path", "Path"), ("branch", "Branch"), ("compartment", "Compartment"))
+                       for f in ("get_ndata", "keys"))
+
+
+def recursion_free(ctx, col, rule, entries, what, allow=VIEW_ACCESSORS, exclude_kinds=("callback",)):
     """No strong cycle reachable from entries (callback edges = user code excluded).
     Weak edges met inside the slice make the instance UNRESOLVED."""
     cg = ctx.cg
